@@ -1,8 +1,9 @@
 (** C08 — the joint model prior equals the product of the conditional prior densities.
     Model: Graph/Prior.v (augmenter + ModelPrior._evaluate_pdf over the graph calculus).
-    Proofs: Proofs/C08_Prior.v (structure), Proofs/C08_Algebra.v (products, log sums, stencil). *)
+    Proofs: Proofs/C08_Prior.v (structure), Proofs/C08_Algebra.v (products, log sums, stencil),
+    Proofs/C08_History.v (array inputs, shapes of the answers, histories of calls and objects). *)
 From Coq Require Import List String ZArith QArith Arith Bool Sorting.Permutation.
-From Elfi Require Import Graph.Net Graph.Edit Graph.Prior Proofs.C14_Edit Proofs.C08_Prior Proofs.C08_Algebra.
+From Elfi Require Import Graph.Net Graph.Edit Graph.Prior Proofs.C14_Edit Proofs.C08_Prior Proofs.C08_Algebra Proofs.C08_History.
 Import ListNotations.
 
 (** For every model and every duplicate-free list of requested parameters, augmentation gives each
@@ -90,4 +91,120 @@ Example C08_example :
   = Some (VApp (OpUser "mul"%string)
              [VApp (OpUser "pdf:t2"%string) [VConst 72; VConst 71; VConst 1] [];
               VApp (OpUser "pdf:t1"%string) [VConst 71; VConst 0; VConst 2] []] []).
+Proof. vm_compute. repeat split. Qed.
+
+(** ---- array inputs, shapes, histories (wave 2) ---- *)
+Close Scope Q_scope.
+
+(** A matrix with one point per row is answered with one value per row, row i evaluated at point i
+    (for every model, every request, any number of rows). *)
+Theorem C08_matrix_rows :
+  forall m P log rows impl,
+    P <> [] -> Forall (fun r : list Z => List.length r = List.length P) rows ->
+    eval_call m P {| c_log := log; c_shape := [List.length rows; List.length P]; c_data := List.concat rows; c_impl := impl |}
+    = match eval_rows m P log rows with Ok vs => Some ([List.length rows], vs) | Err _ => None end.
+Proof. exact eval_call_matrix. Qed.
+Print Assumptions C08_matrix_rows.
+
+(** One point handed over as a one-row matrix, as a vector (several parameters) or as a scalar /
+    one-element vector (one parameter) gets the same value; only the number of axes differs. *)
+Theorem C08_single_point_forms :
+  forall m P log row impl,
+    P <> [] -> List.length row = List.length P ->
+    let ans sh := eval_call m P {| c_log := log; c_shape := sh; c_data := row; c_impl := impl |} in
+    let v := eval_point m P log row in
+    ans [1; List.length P] = option_map (fun v => ([1], [v])) v
+    /\ (1 < List.length P -> ans [List.length P] = option_map (fun v => ([], [v])) v)
+    /\ (List.length P = 1 -> ans [] = option_map (fun v => ([], [v])) v /\ ans [1] = option_map (fun v => ([1], [v])) v).
+Proof. exact single_point_forms. Qed.
+Print Assumptions C08_single_point_forms.
+
+(** For every proper input (scalar, vector, matrix) of n points the model's answer has no axis for a
+    single point given as scalar / vector and exactly one axis of length n otherwise. *)
+Theorem C08_model_answer_shape :
+  forall m P c n axis sh vs,
+    P <> [] ->
+    proper_form (List.length P) (c_shape c) = Some (n, axis) ->
+    List.length (c_data c) = n * List.length P ->
+    eval_call m P c = Some (sh, vs) ->
+    sh = (if axis then [n] else []) /\ List.length vs = (if axis then n else 1).
+Proof. exact eval_call_shape. Qed.
+Print Assumptions C08_model_answer_shape.
+
+(** No state between calls or objects: a history corresponds to the model iff every single call in
+    it - wherever it stands, whatever was evaluated, returned or overwritten before, whichever other
+    objects exist - got the answer the model gives to that call alone from the graph the object was
+    built from; in particular the order and interleaving of calls and objects are immaterial. *)
+Theorem C08_history_every_call_fresh :
+  forall h, agree_t (History h) = true <->
+            forall e c, In e h -> In c (e_calls e) -> answer_eqb (eval_call (e_model e) (e_params e) c) (c_impl c) = true.
+Proof. exact agree_history_iff. Qed.
+Print Assumptions C08_history_every_call_fresh.
+
+Theorem C08_history_order_immaterial :
+  forall h h', Permutation h h' -> agree_t (History h) = agree_t (History h').
+Proof. exact agree_history_order. Qed.
+Print Assumptions C08_history_order_immaterial.
+
+Theorem C08_calls_order_immaterial :
+  forall m P cs cs', Permutation cs cs' ->
+    agree_epoch {| e_model := m; e_params := P; e_calls := cs |} = agree_epoch {| e_model := m; e_params := P; e_calls := cs' |}.
+Proof. exact agree_epoch_order. Qed.
+Print Assumptions C08_calls_order_immaterial.
+
+(** The decidable statement evaluated on the implementation's answers means what it says: a proper
+    input of n points was answered with the expected shape and, row by row, with the product (sum
+    of logs) of the conditional densities at that row. *)
+Theorem C08_ok_call_sound :
+  forall m P c n axis,
+    proper_form (List.length P) (c_shape c) = Some (n, axis) ->
+    List.length (c_data c) = n * List.length P ->
+    ok_call m P c = true ->
+    exists rows vs ws,
+      rows_of (List.length (c_data c)) (List.length P) (c_data c) = Some rows
+      /\ c_impl c = Some ((if axis then [n] else []), vs)
+      /\ spec_rows m P (c_log c) rows = Some ws
+      /\ values_eqb ws vs = true.
+Proof. exact ok_call_sound. Qed.
+Print Assumptions C08_ok_call_sound.
+
+(** Non-vacuity: the same point [72; 71] as a vector and as a one-row matrix, and a two-row matrix,
+    on the hierarchical model above; then the model after t1 became a node holding another
+    distribution object ("t1_v2", one argument): an object built from the edited graph carries the
+    new conditional density, and the decidable statement rejects the old answer for it. *)
+Definition ex_term (d1 : string) (x2 x1 : Z) (args1 : list value) : value :=
+  VApp (OpUser "mul"%string)
+       [VApp (OpUser "pdf:t2"%string) [VConst x2; VConst x1; VConst 1] [];
+        VApp (OpUser d1) (VConst x1 :: args1) []] [].
+Definition ex_model_edited : snet :=
+  {| s_nodes := [("_c0"%string, pst (Some (VConst 0)) false false ""%string);
+                 ("_c2"%string, pst (Some (VConst 2)) false false ""%string);
+                 ("_c1"%string, pst (Some (VConst 1)) false false ""%string);
+                 ("t2"%string, pst None true true "t2"%string);
+                 ("t3"%string, pst None true true "t3"%string);
+                 ("t1"%string, pst None true true "t1_v2"%string)];
+     s_edges := [("_c1"%string, "t2"%string, PInt 1); ("_c0"%string, "t3"%string, PInt 0);
+                 ("t1"%string, "t2"%string, PInt 0); ("_c2"%string, "t1"%string, PInt 0)];
+     s_observed := [] |}.
+Definition ex_old := ex_term "pdf:t1"%string 72 71 [VConst 0; VConst 2].
+Definition ex_new := ex_term "pdf:t1_v2"%string 72 71 [VConst 2].
+Definition ex_call (sh : list nat) (d : list Z) (ans : option (list nat * list value)) : call :=
+  {| c_log := false; c_shape := sh; c_data := d; c_impl := ans |}.
+Example C08_history_example :
+  let P := ["t2"%string; "t1"%string] in
+  let good := [ {| e_model := ex_model; e_params := P;
+                   e_calls := [ex_call [2] [72; 71]%Z (Some ([], [ex_old]));
+                               ex_call [1; 2] [72; 71]%Z (Some ([1], [ex_old]));
+                               ex_call [2; 2] [72; 71; 82; 81]%Z
+                                       (Some ([2], [ex_old; ex_term "pdf:t1"%string 82 81 [VConst 0; VConst 2]]))] |};
+                {| e_model := ex_model_edited; e_params := P;
+                   e_calls := [ex_call [2] [72; 71]%Z (Some ([], [ex_new]))] |} ] in
+  let stale_shape := [ {| e_model := ex_model; e_params := P;
+                          e_calls := [ex_call [1; 2] [72; 71]%Z (Some ([], [ex_old]))] |} ] in
+  let stale_graph := [ {| e_model := ex_model_edited; e_params := P;
+                          e_calls := [ex_call [2] [72; 71]%Z (Some ([], [ex_old]))] |} ] in
+  wf_request ex_model_edited P = true
+  /\ agree_t (History good) = true /\ ok_t (History good) = true
+  /\ agree_t (History stale_shape) = false /\ ok_t (History stale_shape) = false
+  /\ agree_t (History stale_graph) = false /\ ok_t (History stale_graph) = false.
 Proof. vm_compute. repeat split. Qed.
